@@ -150,7 +150,9 @@ def run(chk):
         k = min(batch, n - done)
         cases = [scen.gen_case(chk.rng, chk.tier, chk.rng.choice(kinds)) for _ in range(k)]
         if done == 0:
-            cases = json.loads(json.dumps(CORPUS)) + [scen.gen_xproc_case(chk.rng, chk.tier) for _ in range(nx)] + cases
+            syst = scen.systematic_cases(chk.tier)
+            chk.cov['distribution']['systematic_cases'] = len(syst)
+            cases = json.loads(json.dumps(CORPUS)) + [scen.gen_xproc_case(chk.rng, chk.tier) for _ in range(nx)] + syst + cases
         results = _round(chk, scen, cases)
         done += k
         for case, res in results[:400]:
@@ -180,7 +182,9 @@ def run(chk):
     chk.add_obligation('correspondence', 'drv remoteexc: RemoteExc.step/hopWith/Exc.ok = real RemoteException hops on every generated case',
                        not chk.corr_breaks, cases=chk.cov['traces_validated_against_impl'])
     chk.cov['rule'] = (
-        'cases = random (exception tree, hop list): leaf class from a library of builtin / custom / generated classes '
+        'cases = 8 fixed corpus cases + a seed-independent systematic stream (every class of the library x chain kind x '
+        'every forward/re-raise pattern of <= 3 hops (thorough: <= 4), and every class as RemoteException / bare / shared '
+        'member of an EnsembleError) + random (exception tree, hop list): leaf class from a library of builtin / custom / generated classes '
         '(custom __init__ calling super().__init__, attribute state, custom __reduce__, notes, ExceptionGroup), argument '
         'tuples, traceback depth 1-6 (boundary 12/30), cause / two-level cause / context chains, EnsembleError nesting '
         'depth 0-2 with plain values, RemoteException members, bare live / already-remote / traceback-less members; '
